@@ -305,3 +305,229 @@ load_place!(c03_load_place_3000_2, 0x3000u16, 2);
 load_place!(c03_load_place_0_1, 0u16, 1);
 load_place!(c03_load_place_fffe_1, 0xFFFEu16, 1);
 load_place!(c03_load_place_fdff_3, 0xFDFFu16, 3);
+
+// ----------------------------------------------------------------- support for C15: execute recorder
+pub(crate) static mut EXEC_CALLS: u8 = 0;
+pub(crate) static mut EXEC_INSTR: u16 = 0;
+pub(crate) static mut EXEC_PC: u16 = 0;
+/// stands in for RunState::execute inside eval: records the word and the PC it is executed "at"
+pub(crate) fn execute_recorder(s: &mut RunState, instr: u16) {
+    unsafe {
+        EXEC_CALLS += 1;
+        EXEC_INSTR = instr;
+        EXEC_PC = s.pc;
+    }
+}
+pub(crate) fn exec_calls() -> u8 {
+    unsafe { EXEC_CALLS }
+}
+pub(crate) fn exec_instr() -> u16 {
+    unsafe { EXEC_INSTR }
+}
+pub(crate) fn exec_pc() -> u16 {
+    unsafe { EXEC_PC }
+}
+
+// ----------------------------------------------------------------- C02/C03 H-trap
+static mut INPUT: [u32; 2] = [0; 2];
+static mut INPUT_LEN: usize = 0;
+static mut INPUT_POS: usize = 0;
+/// stands in for runtime::read_char: next element of the input queue (an ASCII character or U+FFFD, which is
+/// what the real function returns for any byte), `exit(1)` at end of input.  The byte -> char mapping inside
+/// the real read_char (terminal / stdin, FFI) is outside the claim.
+fn read_char_queue() -> char {
+    unsafe {
+        if INPUT_POS >= INPUT_LEN {
+            std::process::exit(1);
+        }
+        let c = INPUT[INPUT_POS];
+        INPUT_POS += 1;
+        char::from_u32(c).unwrap()
+    }
+}
+fn any_input(n: usize) -> [u32; 2] {
+    let q: [u32; 2] = kani::any();
+    kani::assume(q[0] < 0x80 || q[0] == 0xFFFD);
+    kani::assume(q[1] < 0x80 || q[1] == 0xFFFD);
+    unsafe {
+        INPUT = q;
+        INPUT_LEN = n;
+        INPUT_POS = 0;
+    }
+    q
+}
+fn input_consumed() -> usize {
+    unsafe { INPUT_POS }
+}
+
+macro_rules! trap_attrs {
+    ($(#[$m:meta])* fn $name:ident() $body:block) => {
+        #[kani::proof]
+        #[kani::unwind(10)]
+        #[kani::stub(alloc::fmt::format, stubs::fmt_format)]
+        #[kani::stub(crate::runtime::read_char, read_char_queue)]
+        #[kani::stub(crate::output::Output::print_fmt, crate::output::verif_h::print_fmt_capture)]
+        $(#[$m])*
+        fn $name() $body
+    };
+}
+use crate::verif_h::capture;
+
+trap_attrs! {
+#[kani::stub(std::process::exit, crate::verif_h::exits::never)]
+fn c03_trap_getc_in_out() {
+    let mut s = any_state();
+    let q = any_input(2);
+    let which: u8 = kani::any();
+    kani::assume(which < 3);
+    let vect: u16 = match which { 0 => 0x20, 1 => 0x21, _ => 0x23 };
+    let hi: u16 = kani::any();
+    let instr = 0xF000 | (hi & 0x0F00) | vect; // bits 11:8 are ignored by TRAP
+    let probe: u16 = kani::any();
+    let pre = snap(&s);
+    let pre_probe = s.mem[probe as usize];
+    s.trap(instr);
+    let mut e = Effect { r: pre.r, pc: pre.pc, cc: pre.cc, write: None };
+    match which {
+        0 => {
+            e.r[0] = q[0] as u16;
+            assert!(input_consumed() == 1 && capture::len() == 0, "GETC must take exactly one input character and print nothing");
+        }
+        1 => {
+            assert!(input_consumed() == 0 && capture::len() == 1 && capture::at(0) == (pre.r[0] % 256) as u32, "OUT must print R0[7:0] as one character");
+        }
+        _ => {
+            e.r[0] = q[0] as u16;
+            assert!(input_consumed() == 1 && capture::len() == 1 && capture::at(0) == q[0], "IN must take one character and echo it");
+        }
+    }
+    assert_effect(&s, &e, probe, pre_probe);
+    kani::cover!(which == 0 && q[0] == 0xFFFD);
+    kani::cover!(which == 1 && pre.r[0] == 0x1FF);
+    kani::cover!(which == 2);
+}}
+
+/// GETC / IN at end of input: exit(1), nothing else
+trap_attrs! {
+#[kani::stub(std::process::exit, crate::verif_h::exits::expect_1)]
+fn c03_trap_input_eof() {
+    let mut s = any_state();
+    let _ = any_input(0);
+    let is_in: bool = kani::any();
+    s.trap(if is_in { 0xF023 } else { 0xF020 });
+    assert!(false, "GETC/IN went on after end of input");
+}}
+
+trap_attrs! {
+#[kani::stub(std::process::exit, crate::verif_h::exits::never)]
+fn c03_trap_halt_putn() {
+    let mut s = any_state();
+    let halt: bool = kani::any();
+    let probe: u16 = kani::any();
+    let pre = snap(&s);
+    let pre_probe = s.mem[probe as usize];
+    s.trap(if halt { 0xF025 } else { 0xF026 });
+    let mut e = Effect { r: pre.r, pc: pre.pc, cc: pre.cc, write: None };
+    if halt {
+        e.pc = 0xFFFF;
+    } else {
+        // PUTN: R0 as a signed decimal, no padding
+        let v = pre.r[0];
+        let neg = v >= 0x8000;
+        let mag: u32 = if neg { 65536 - v as u32 } else { v as u32 };
+        let digits: usize = if mag >= 10000 { 5 } else if mag >= 1000 { 4 } else if mag >= 100 { 3 } else if mag >= 10 { 2 } else { 1 };
+        let total = digits + if neg { 1 } else { 0 };
+        assert!(capture::len() == total, "PUTN printed the wrong number of characters");
+        if neg {
+            assert!(capture::at(0) == '-' as u32);
+        }
+        assert!(capture::at(total - 1) == '0' as u32 + mag % 10, "PUTN last digit wrong");
+        let first = if neg { 1 } else { 0 };
+        let lead = match digits { 5 => mag / 10000, 4 => mag / 1000, 3 => mag / 100, 2 => mag / 10, _ => mag };
+        assert!(capture::at(first) == '0' as u32 + lead, "PUTN leading digit wrong");
+    }
+    assert_effect(&s, &e, probe, pre_probe);
+    kani::cover!(!halt && pre.r[0] == 0x8000);
+    kani::cover!(halt);
+}}
+
+/// PUTS / PUTSP: characters up to the first zero (word resp. byte), string of at most 3 words that does not
+/// run through 0xFFFF (stated bound)
+trap_attrs! {
+#[kani::stub(std::process::exit, crate::verif_h::exits::never)]
+fn c03_trap_puts() {
+    let mut s = any_state();
+    let a = s.reg[0];
+    kani::assume(a <= 0xFFF0);
+    let w0 = s.mem[a as usize];
+    let w1 = s.mem[a as usize + 1];
+    let w2 = s.mem[a as usize + 2];
+    kani::assume(w0 % 256 == 0 || w1 % 256 == 0 || w2 % 256 == 0);
+    let probe: u16 = kani::any();
+    let pre = snap(&s);
+    let pre_probe = s.mem[probe as usize];
+    s.trap(0xF022);
+    let n = if w0 % 256 == 0 { 0 } else if w1 % 256 == 0 { 1 } else { 2 };
+    assert!(capture::len() == n, "PUTS printed past / stopped before the terminating zero");
+    if n >= 1 { assert!(capture::at(0) == (w0 % 256) as u32); }
+    if n >= 2 { assert!(capture::at(1) == (w1 % 256) as u32); }
+    assert_unchanged(&s, &pre, probe, pre_probe);
+    kani::cover!(n == 2 && w0 >= 0x100);
+    kani::cover!(n == 0);
+}}
+
+trap_attrs! {
+#[kani::stub(std::process::exit, crate::verif_h::exits::never)]
+fn c03_trap_putsp() {
+    let mut s = any_state();
+    let a = s.reg[0];
+    kani::assume(a <= 0xFFF0);
+    let w0 = s.mem[a as usize];
+    let w1 = s.mem[a as usize + 1];
+    // bytes in printing order: high byte first, as implemented and documented in the trap's code; the string ends at the first zero byte
+    let b = [w0 / 256, w0 % 256, w1 / 256, w1 % 256];
+    kani::assume(b[0] == 0 || b[1] == 0 || b[2] == 0 || b[3] == 0);
+    let probe: u16 = kani::any();
+    let pre = snap(&s);
+    let pre_probe = s.mem[probe as usize];
+    s.trap(0xF024);
+    let n = if b[0] == 0 { 0 } else if b[1] == 0 { 1 } else if b[2] == 0 { 2 } else { 3 };
+    assert!(capture::len() == n, "PUTSP printed past / stopped before the terminating zero byte");
+    if n >= 1 { assert!(capture::at(0) == b[0] as u32); }
+    if n >= 2 { assert!(capture::at(1) == b[1] as u32); }
+    if n >= 3 { assert!(capture::at(2) == b[2] as u32); }
+    assert_unchanged(&s, &pre, probe, pre_probe);
+    kani::cover!(n == 3);
+}}
+
+/// unknown trap vectors: exit(0xEE) with nothing executed
+trap_attrs! {
+#[kani::stub(std::process::exit, crate::verif_h::exits::expect_ee)]
+fn c02_trap_unknown_vector() {
+    let mut s = any_state();
+    let instr: u16 = kani::any();
+    kani::assume(instr >> 12 == 0xF);
+    let v = instr % 256;
+    kani::assume(v < 0x20 || v > 0x27);
+    s.trap(instr);
+    assert!(false, "unknown trap vector executed instead of stopping the machine");
+}}
+
+/// REG: prints, changes nothing
+#[kani::proof]
+#[kani::unwind(10)]
+#[kani::stub(alloc::fmt::format, stubs::fmt_format)]
+#[kani::stub(crate::runtime::read_char, read_char_queue)]
+#[kani::stub(std::process::exit, crate::verif_h::exits::never)]
+#[kani::stub(crate::output::Output::print_fmt, crate::output::verif_h::print_fmt_count)]
+fn c03_trap_reg() {
+    let mut s = any_state();
+    crate::output::verif_h::set_minimal_any();
+    let probe: u16 = kani::any();
+    let pre = snap(&s);
+    let pre_probe = s.mem[probe as usize];
+    s.trap(0xF027);
+    assert_unchanged(&s, &pre, probe, pre_probe);
+    assert!(capture::len() > 0, "REG printed nothing");
+    kani::cover!(true);
+}
